@@ -1,4 +1,5 @@
 import Driver.Proto
+import Driver.Ops.Read
 import ZipVerif.Model.Aes
 /- C16 ops: `aes.*`.  The cryptographic primitives are uninterpreted in the model; every op line
    carries the oracle tables (`kdf`, `ks`, `mac`) computed by the harness with the RustCrypto crates,
@@ -119,13 +120,16 @@ def showAes : Option (AesMode × VendorVersion) → String
   | some (m, v) => s!"{m.keyLength * 8}/{match v with | .ae1 => 1 | .ae2 => 2}"
 
 /-- `k` refills of the decoder's 32 KiB buffer; stops at the first error or at `Ok(0)`. -/
-def pullFills {ρ} (step : ρ → Nat → Out Bytes × ρ) : Nat → ρ → Bytes → (Bytes × Option ZErr × Bool × ρ)
+def pullFillsN {ρ} (step : ρ → Nat → Out Bytes × ρ) (fill : Nat) : Nat → ρ → Bytes → (Bytes × Option ZErr × Bool × ρ)
   | 0, r, acc => (acc, none, false, r)
   | k + 1, r, acc =>
-    match step r 32768 with
-    | (.ok bs, r') => if bs.isEmpty then (acc, none, false, r') else pullFills step k r' (acc ++ bs)
+    match step r fill with
+    | (.ok bs, r') => if bs.isEmpty then (acc, none, false, r') else pullFillsN step fill k r' (acc ++ bs)
     | (.err e, r') => (acc, some e, false, r')
     | (.panic _, r') => (acc, none, true, r')
+
+def pullFills {ρ} (step : ρ → Nat → Out Bytes × ρ) : Nat → ρ → Bytes → (Bytes × Option ZErr × Bool × ρ) :=
+  pullFillsN step 32768
 
 /-- The consumer APIs of the `aes.read` op. `loop` is the explicit `read` loop; `rte` (`read_to_end`),
 `copy` (`io::copy`), `bytes` (the `bytes()` iterator) are std's provided loops over `ZipFile::read` and
@@ -149,6 +153,14 @@ def opAes (op : String) (a : Args) : Option String := do
     match ctrChunks t.prims key (fuelFor data.length chunks) chunks chunks CtrState.new data [] with
     | some out => some s!"ok {toHex out}"
     | none => some "panic"
+  | "aes.kat" =>
+    -- Known-answer vector of a primitive (PBKDF2 / HMAC-SHA1 / the AES block function). The primitives
+    -- are uninterpreted parameters of the model, so there is nothing to compute here: the PUBLISHED value
+    -- carried by the op line is the reference, reflected so that the ordinary comparison (and the oracle)
+    -- reports an implementation that computes anything else.
+    let want ← a.hex? "want"
+    let prim ← a.get? "prim"
+    if prim == "pbkdf2" ∨ prim == "hmac" ∨ prim == "aes" then some s!"kat {toHex want}" else none
   | "aes.extra" =>
     match ← parseEntry a with
     | .ok st =>
@@ -260,6 +272,34 @@ def opAes (op : String) (a : Args) : Option String := do
                   | .panic _ => some "open=ok file=ok read=panic"
                   | .ok _ => some (apiOk api usize zout)
               else some "open=ok file=ok read=unknown-inflate"
+          | .bzip2 | .zstd =>
+            -- bzip2's / zstd's reader adapters pull their input through a `BufReader` of `zfill` bytes;
+            -- the decoder itself is a table computed by the harness with the codec crate's own adapter over
+            -- the decrypted stream: `zn` refills, then end-of-stream with output `zout`, or an error.
+            let zres ← a.get? "zres"
+            if zres == "none" then some "open=ok file=ok read=unmodelled" else
+            let zn ← a.nat? "zn"
+            let zfill ← a.nat? "zfill"
+            let zpl ← a.nat? "zpl"
+            let zph ← a.nat? "zph"
+            let zout ← a.hex? "zout"
+            let (got, er, pan, v1) := pullFillsN aesStep zfill zn v []
+            if pan then some "open=ok file=ok read=panic" else
+            match er with
+            | some er => some s!"open=ok file=ok read={Out.className er}"
+            | none =>
+              -- what was pulled must be the prefix of the stream the table was computed for
+              if got.length ≠ zpl ∨ (fnv64 got).toNat ≠ zph then some "open=ok file=ok read=unknown-codec"
+              else if zres == "end" then
+                if crcFin (crcUpd crcInit zout) ≠ e.crc32 ∧ !ae2 then
+                  some s!"open=ok file=ok read=err io:other"
+                else match (finishCrypto P listSrc true v1).1 with
+                  | .err er => some s!"open=ok file=ok read={Out.className er}"
+                  | .panic _ => some "open=ok file=ok read=panic"
+                  | .ok _ => some (apiOk api usize zout)
+              else if zres.startsWith "err:" then
+                some s!"open=ok file=ok read={Out.className (parseErrClass (zres.drop 4).toString)}"
+              else some "open=ok file=ok read=unknown-codec"
           | _ => some "open=ok file=ok read=unmodelled"
   | _ => none
 
